@@ -22,8 +22,10 @@ for d in sorted(glob.glob(os.path.join(V, "seeded", "*"))):
         continue
     detected = []
     try:
-        for pid, cmd in checks:
-            p = subprocess.run(cmd, shell=True, cwd=V, capture_output=True, text=True)
+        from concurrent.futures import ThreadPoolExecutor
+        with ThreadPoolExecutor(max_workers=7) as ex:
+            results = list(ex.map(lambda pc: (pc[0], subprocess.run(pc[1], shell=True, cwd=V, capture_output=True, text=True)), checks))
+        for pid, p in results:
             if p.returncode == 1 and "VIOLATION property=%s" % pid in p.stdout:
                 rules = sorted({l.split("replay=")[1].split("/")[-1].split("-")[1] for l in p.stdout.splitlines() if l.startswith("VIOLATION")})
                 detected.append("%s(%s)" % (pid, ",".join(rules)))
